@@ -456,6 +456,24 @@ def rule_r5(repo):
             got = r.locals['self'].fields.get('pragma', {}).get('data_values_nest_level') if r.ok else r.describe()
             if got != want:
                 rr.fail('pragma:precedence', init.where, 'argument %r with pragma %r gives level %r (expected %r)' % (arg, prag, got, want))
+    # two runners created one after the other in one interpreter (module- and class-level objects are shared, as at run time): what the
+    # first one was given must not become the default of the second, nor may the second change the first
+    it = I(repo, 'ScriptRunner')
+    made = []
+    for arg, prag in ((4, None), (None, None), (None, 2), (None, None)):
+        it.pragma_level = prag
+        res = it.run_function(init, lambda: {'self': Obj('ScriptRunner', {}), 'input_string': Sym('SRC'), 'data_values_nest_level': arg, 'mode': 'exec'},
+                              self_class='ScriptRunner')
+        oks = [r for r in res if r.ok]
+        if len(oks) != 1:
+            raise AnalysisError('ScriptRunner.__init__ does not fold to one path (%s)' % [r.describe() for r in res])
+        made.append((arg, prag, oks[0].locals['self']))
+    rr.instance('four runners in one process: levels stay per runner')
+    want_levels = [4, 1, 2, 1]
+    got_levels = [o.fields.get('pragma', {}).get('data_values_nest_level') if isinstance(o.fields.get('pragma'), dict) else o.fields.get('pragma') for _, _, o in made]
+    if got_levels != want_levels:
+        rr.fail('pragma:shared-between-runners', init.where, 'runners created with (argument, pragma) = %s end up with levels %s (expected %s): the level of one runner '
+                'leaks into another through a shared object' % ([(a, p) for a, p, _ in made], got_levels, want_levels))
     # process_pragma: only leading `#$` lines, keys restricted to known pragmas
     pp = repo.own_method('ScriptRunner', 'process_pragma')
 
@@ -558,6 +576,86 @@ def rule_r6(repo):
     return rr
 
 
+def rule_r7(repo, rule='C18.R7'):
+    """ScriptRunner.run folded with the querent scripted: every run queries every embedded expression on the message it is given and
+    runs the code with exactly those names (plus message and file name) as its *global* namespace."""
+    from sa.patheval import Stub
+    rr = RuleResult(rule, 'running a script binds the variable names to fresh query results, the message and the file name, as the global namespace of the code')
+    init = repo.own_method('ScriptRunner', '__init__')
+    run_fi = repo.own_method('ScriptRunner', 'run')
+    subs = {'%length': 'PBK_0', '/001001': 'PBK_1'}
+    for mode in ('exec', 'eval'):
+        queries = []
+        runs = []
+
+        class I(Interp):
+            def on_call(self2, text, callee, args, kwargs, node, frame):
+                if text == 'process_embedded_query_expr':
+                    return ('PBK_0 + len(PBK_1)', dict(subs))
+                if text == 'compile':
+                    return Sym('CODEOBJ')
+                if text == 'BufrMessageQuerent':
+                    def query(interp, a, kw, node, frame):
+                        queries.append((a[0] if a else None, a[1] if len(a) > 1 else None))
+                        return Sym('RESULT:%s:%d' % (a[1] if len(a) > 1 else '?', len(queries)))
+                    return Stub('querent', {'query': query})
+                if text in ('exec', 'eval') and not isinstance(callee, Stub):
+                    runs.append((text, list(args), dict(kwargs)))
+                    return Sym('EVALUATED') if text == 'eval' else None
+                return self2.NOT_HANDLED
+
+            def builtin(self2, name, args, kwargs, node, frame):
+                if name in ('exec', 'eval'):
+                    runs.append((name, list(args), dict(kwargs)))
+                    return Sym('EVALUATED') if name == 'eval' else None
+                if name == 'isinstance' and len(args) == 2 and isinstance(args[0], Sym):
+                    return False          # a scripted result is not a QueryResult: handed through unflattened
+                return Interp.builtin(self2, name, args, kwargs, node, frame)
+        it = I(repo, 'ScriptRunner')
+        res = it.run_function(init, lambda: {'self': Obj('ScriptRunner', {}), 'input_string': Sym('SRC'), 'data_values_nest_level': None, 'mode': mode}, self_class='ScriptRunner')
+        oks = [r for r in res if r.ok]
+        if len(oks) != 1:
+            raise AnalysisError('ScriptRunner.__init__ (mode %s) does not fold to one path: %s' % (mode, [r.describe() for r in res]))
+        runner = oks[0].locals['self']
+        msgs = [Obj('BufrMessage', {'filename': 'a.bufr', '__id__': 'A'}), Obj('BufrMessage', {'filename': 'b.bufr', '__id__': 'B'})]
+        history = [msgs[0], msgs[0], msgs[1], msgs[0]]
+        for k, msg in enumerate(history):
+            del queries[:]
+            del runs[:]
+            res = it.run_function(run_fi, lambda: {'self': runner, 'bufr_message': msg}, self_class='ScriptRunner')
+            rr.instance('%s mode, run %d of the history A A B A' % (mode, k + 1))
+            key = 'run:%s' % mode
+            if len(res) != 1 or not res[0].ok:
+                rr.fail(key + ':outcome', run_fi.where, 'run() on a scripted message gives %s' % [r.describe() for r in res])
+                continue
+            asked = sorted((m.fields.get('__id__') if isinstance(m, Obj) else repr(m), e) for m, e in queries)
+            want_asked = sorted((msg.fields['__id__'], e) for e in subs)
+            if asked != want_asked:
+                rr.fail(key + ':queries', run_fi.where, 'run %d (message %s, history A A B A) evaluates the queries %s; expected every embedded expression once on the message '
+                        'of this run: %s (results carried over from an earlier run are not the results of this message, and may have been changed by the '
+                        'script)' % (k + 1, msg.fields['__id__'], asked, want_asked), witness={'run': k + 1, 'mode': mode})
+                continue
+            if len(runs) != 1 or runs[0][0] != mode:
+                rr.fail(key + ':executed', run_fi.where, 'run() in %s mode executes %s' % (mode, [(r[0], len(r[1])) for r in runs]))
+                continue
+            name, a, kw = runs[0]
+            glob = a[1] if len(a) > 1 else kw.get('globals')
+            loc = a[2] if len(a) > 2 else kw.get('locals')
+            if repr(a[0]) != 'CODEOBJ' or not isinstance(glob, dict):
+                rr.fail(key + ':namespace', run_fi.where, '%s is called with %s; expected the compiled code and the dict of variables as its global namespace' % (name, [repr(x)[:60] for x in a]))
+                continue
+            if loc is not None and loc is not glob:
+                rr.fail(key + ':namespace', run_fi.where, '%s gets a separate local namespace: names bound only there are invisible inside generator expressions, '
+                        'comprehensions and lambdas of the script / filter expression (NameError)' % name)
+            names = dict((k2, v) for k2, v in glob.items() if k2 != '__builtins__')
+            got = dict((k2, (v.fields.get('__id__') if isinstance(v, Obj) else (repr(v).split(':')[1] if isinstance(v, Sym) and repr(v).startswith('RESULT:') else v))) for k2, v in names.items())
+            want = {'PBK_0': '%length', 'PBK_1': '/001001', 'PBK_BUFR_MESSAGE': msg.fields['__id__'], 'PBK_FILENAME': msg.fields['filename']}
+            if got != want:
+                rr.fail(key + ':bindings', run_fi.where, 'run %d binds %s; expected %s' % (k + 1, got, want), witness={'run': k + 1, 'mode': mode})
+    rr.require_floor(8)
+    return rr
+
+
 def run(repo, check):
     r1s = rule_r1_strings(repo, check.tier)
     try:
@@ -580,6 +678,7 @@ def run(repo, check):
     check.run_rule(rule_r3, repo)
     check.run_rule(rule_r4, repo)
     check.run_rule(rule_r5, repo)
+    check.run_rule(rule_r7, repo)
     check.run_rule(rule_r6, repo)
     check.coverage_extra = {
         'states': 5, 'transitions': r1.extra['cases'], 'traces_validated_against_impl': 0, 'samples': r1.extra['samples'] or [{'note': 'none'}],
